@@ -159,6 +159,20 @@ func (cls *CachedLocations) Open(ctx *Context, sys *System, name string, check b
 	}
 
 	cls.Unlock()
+
+	if check && loc != nil {
+		// The cached instance may have been opened without an
+		// existence check (as a parent, or by a probe for a
+		// location that was never created).
+		created, cerr := locationCreated(ctx, loc)
+		if cerr == nil && !created {
+			cerr = NewNotFoundError("%s", name)
+		}
+		if cerr != nil {
+			cls.Release(ctx, sys, name)
+			return nil, cerr
+		}
+	}
 	return loc, err
 }
 
